@@ -333,6 +333,50 @@ KwSmallPairs == { << Kw(One, Two, Three), Kw(One, KI(4), Three) >>,
                   << KwCse(x, Str("p"), EvalScope, M1), KwCse(x, Str("p"), EvalScope, M2) >>,
                   << InitF(One, Two, Three), InitF(One, KF(2, 1), Three) >> }
 
+(***************************************************************************)
+(* Round 6: object lifetimes (sweep "heap").  A tuple (a, b, c): a and its *)
+(* separately built equal b live first; c is built after one of them has   *)
+(* died and - CPython hands the block freed last to the next object of the *)
+(* same size - where the dead one was.  c is of a's class and differs from *)
+(* a in one field: by a value whose hash collides (-1 / -2: the only kind  *)
+(* of difference a comparison that trusts equal hashes for a moment can    *)
+(* get wrong), plainly, or not at all (== a, True is the right answer).    *)
+(* Per kind of class: directly below Expression (init-args protocol),      *)
+(* legacy child of a decorated class (the added argument / a field of the  *)
+(* parent differs), legacy below an undecorated class, below a decorated   *)
+(* child, plain below a legacy child, legacy below Variable's built-in     *)
+(* undecorated child; decorated root / child, plain child, built in;       *)
+(* nested legacy nodes.                                                    *)
+(***************************************************************************)
+HeapPairsQuick == {
+    << Bin("ULeg", x, M1), Bin("ULeg", x, M2) >>,
+    << Bin("ULeg", One, Two), Bin("ULeg", One, Three) >>,
+    << Bin("ULeg", One, Two), Bin("ULeg", OneF, Two) >>,
+    << U3("ULegChild", One, Two, M1), U3("ULegChild", One, Two, M2) >>,
+    << U3("ULegChild", M1, Two, Three), U3("ULegChild", M2, Two, Three) >>,
+    << U3("ULegGrand", One, Two, M1), U3("ULegGrand", One, Two, M2) >>,
+    << U4("ULegGrandD", One, Two, Three, M1), U4("ULegGrandD", One, Two, Three, M2) >>,
+    << U3("ULegChildPlain", One, Two, M1), U3("ULegChildPlain", One, Two, M2) >>,
+    << Bin("UMVTag", Str("x"), M1), Bin("UMVTag", Str("x"), M2) >>,
+    << Bin("URoot", One, M1), Bin("URoot", One, M2) >>,
+    << Bin("UPlain", One, M1), Bin("UPlain", One, M2) >>,
+    << Bin("UTagVar", Str("x"), M1), Bin("UTagVar", Str("x"), M2) >>,
+    << Ch("Sum", << x, M1 >>), Ch("Sum", << x, M2 >>) >>,
+    << Bin("ULeg", x, Bin("ULeg", y, M1)), Bin("ULeg", x, Bin("ULeg", y, M2)) >> }
+HeapSmallPairs == {
+    << Bin("ULeg", x, M1), Bin("ULeg", x, M2) >>,
+    << U3("ULegChild", One, Two, M1), U3("ULegChild", One, Two, M2) >>,
+    << Bin("URoot", One, M1), Bin("URoot", One, M2) >> }
+HeapDeepPairs == HeapSmallPairs \cup
+    { << U4("ULegGrandD", One, Two, Three, M1), U4("ULegGrandD", One, Two, Three, M2) >> }
+HeapTuples(P) == { << p[1], p[1], p[2] >> : p \in P }
+\* b is == a without being its twin (1 / 1.0 / True), c == both or neither
+HeapTuplesOther == {
+    << Bin("ULeg", One, Two), Bin("ULeg", OneF, Two), Bin("ULeg", OneB, Two) >>,
+    << Bin("ULeg", One, M1), Bin("ULeg", OneF, M1), Bin("ULeg", One, M2) >>,
+    << U3("ULegChild", One, Two, M1), U3("ULegChild", One, KF(2, 1), M1), U3("ULegChild", One, Two, M2) >>,
+    << Ch("Sum", << x, M1 >>), Ch("Sum", << x, KF(-1, 1) >>), Ch("Sum", << x, M2 >>) >> }
+
 \* constructor arguments the class refuses
 FamCtorErr == << CmpN(x, Str("<<"), y), CmpN(x, Str("<"), y) >>
 
@@ -413,4 +457,13 @@ RepTriples == {
     << NaNN(NoneV), NaNN(NoneV), NaNN(Ty("float")) >>,
     << CallKwN(ff, << x >>, Imm(A1B2)), CallKwN(ff, << x >>, Dct(<< KwE("b", Two), KwE("a", One) >>)),
        CallKwN(ff, << x >>, Imm(<< KwE("a", OneF), KwE("b", Two) >>)) >> }
+
+\* round 6, thorough tier: the representative pairs and every near pair of the user-class
+\* families as (a, twin of a, c)
+HeapFams == << FamUser2, FamUser3, FamTagVar, FamNested, FamHier, FamHierU, FamHierD >>
+HeapPairs == HeapPairsQuick \cup RepPairs
+             \cup UNION { UNION { { << HeapFams[i][a], HeapFams[i][b] >> :
+                                      b \in { b2 \in a..Len(HeapFams[i]) : a = 1 \/ b2 <= a + 2 } }
+                                  : a \in 1..Len(HeapFams[i]) }
+                         : i \in 1..Len(HeapFams) }
 =============================================================================
